@@ -229,6 +229,9 @@ pub fn ref_digest(spec: &HashSpec, msg: &[u8]) -> Vec<u8> {
 pub struct ConfCase {
     pub hash: String,
     pub msg: Msg,
+    /// the message is fed in pieces cut at these positions (reduced modulo the length); empty = one call
+    #[serde(default)]
+    pub cuts: Vec<u16>,
 }
 
 fn find<'a>(specs: &'a [HashSpec], name: &str) -> Option<&'a HashSpec> {
@@ -239,13 +242,20 @@ pub fn conf_check(prop: &str, specs: &[HashSpec], c: &ConfCase, info: &mut CaseI
     let spec = find(specs, &c.hash).ok_or_else(|| Fail::new("HARNESS:unknown-hash", c.hash.clone()))?;
     let m = c.msg.bytes();
     let want = ref_digest(spec, &m);
+    let mut cuts: Vec<usize> = if m.is_empty() { Vec::new() } else { c.cuts.iter().map(|x| (*x as usize) % (m.len() + 1)).collect() };
+    cuts.sort();
     let got = guard(|| {
         let mut h = (spec.make)();
-        h.update(&m);
+        let mut prev = 0;
+        for k in cuts.iter().chain(std::iter::once(&m.len())) {
+            h.update(&m[prev..*k]);
+            prev = *k;
+        }
         h.finalize_box()
     });
     let b = spec.block;
     let len = m.len();
+    info.label_if(!cuts.is_empty(), "message fed in several pieces");
     info.label(spec.name.clone());
     info.label_if(len == 0, "empty message");
     info.label_if(len > 0 && len % b == 0, "exact multiple of the block size");
@@ -299,10 +309,10 @@ fn run_conformance(ctx: &mut Ctx, prop: &'static str, family: Family, quick_rand
             let boundary = r <= 1 || r + 18 >= spec.block || len <= 2;
             if boundary {
                 for pat in 0..=5u8 {
-                    sweep.push(ConfCase { hash: spec.name.clone(), msg: Msg { seed, len, pat } });
+                    sweep.push(ConfCase { hash: spec.name.clone(), msg: Msg { seed, len, pat }, cuts: Vec::new() });
                 }
             } else {
-                sweep.push(ConfCase { hash: spec.name.clone(), msg: Msg { seed, len, pat: (len % 6) as u8 } });
+                sweep.push(ConfCase { hash: spec.name.clone(), msg: Msg { seed, len, pat: (len % 6) as u8 }, cuts: Vec::new() });
             }
         }
     }
@@ -314,7 +324,7 @@ fn run_conformance(ctx: &mut Ctx, prop: &'static str, family: Family, quick_rand
     let nspec = names.len();
     let specs3 = specs.clone();
     let long_max = if ctx.tier == crate::engine::Tier::Quick { 65_536usize } else { 4 << 20 };
-    let strat = (0..nspec, any::<u64>(), 0u32..1000, any::<u16>(), gen::pattern()).prop_map(move |(hi, seed, sel, l, pat)| {
+    let strat = (0..nspec, any::<u64>(), 0u32..1000, any::<u16>(), gen::pattern(), prop_oneof![3 => Just(Vec::new()), 2 => prop::collection::vec(any::<u16>(), 1..=3)]).prop_map(move |(hi, seed, sel, l, pat, cuts)| {
         let b = blocks[hi];
         let len = if sel < 600 {
             (l as usize) % (8 * b + 1)
@@ -326,7 +336,7 @@ fn run_conformance(ctx: &mut Ctx, prop: &'static str, family: Family, quick_rand
         } else {
             ((seed as usize) % long_max).max(1)
         };
-        ConfCase { hash: names[hi].clone(), msg: Msg { seed, len, pat } }
+        ConfCase { hash: names[hi].clone(), msg: Msg { seed, len, pat }, cuts }
     });
     let n = ctx.count(quick_random, thorough_random);
     ctx.run("random-messages", n, strat, |c, i| conf_check(prop, &specs3, c, i));
@@ -355,7 +365,7 @@ pub fn run_c07(ctx: &mut Ctx) {
         for &nb in counts {
             // total blocks incl. padding = nb: message of nb-1 full blocks + a few bytes
             for extra in [0usize, 5, spec.block - 9, spec.block - 8] {
-                cases.push(ConfCase { hash: spec.name.clone(), msg: Msg { seed: nb as u64 ^ ctx.seed, len: (nb - 1) * spec.block + extra, pat: 0 } });
+                cases.push(ConfCase { hash: spec.name.clone(), msg: Msg { seed: nb as u64 ^ ctx.seed, len: (nb - 1) * spec.block + extra, pat: 0 }, cuts: Vec::new() });
             }
         }
     }
@@ -363,7 +373,7 @@ pub fn run_c07(ctx: &mut Ctx) {
         // one real crossing of the third counter byte per run (4 MiB resp. 8 MiB), variant rotating with the seed
         let spec = &specs[(ctx.seed % 4) as usize];
         for (nb, extra) in [(65_536usize, 5usize), (65_537, spec.block - 8)] {
-            cases.push(ConfCase { hash: spec.name.clone(), msg: Msg { seed: ctx.seed, len: (nb - 1) * spec.block + extra, pat: 0 } });
+            cases.push(ConfCase { hash: spec.name.clone(), msg: Msg { seed: ctx.seed, len: (nb - 1) * spec.block + extra, pat: 0 }, cuts: Vec::new() });
         }
     }
     let specs2 = specs.clone();
